@@ -2,13 +2,13 @@
 fork trees from real blocks (harness/chainx TestGenTrees), model-check Chain.tla on them (Leg M),
 export the explored graph and replay an edge cover on real nodes (Leg R), run the randomised
 drivers on large trees and validate their traces with ChainTrace.tla (Leg T)."""
-import os, json, random, time, concurrent.futures as cf
+import os, re, json, random, time, concurrent.futures as cf
 import vlib
 from vlib import log
 
 
-def gen_trees(wd, binary, per_regime, blocks):
-    res = vlib.go_run(binary, "TestGenTrees", wd, env={"VERIF_PER_REGIME": per_regime, "VERIF_TREE_BLOCKS": blocks})
+def gen_trees(wd, binary, per_regime, blocks, prop=""):
+    res = vlib.go_run(binary, "TestGenTrees", wd, env={"VERIF_PER_REGIME": per_regime, "VERIF_TREE_BLOCKS": blocks, "VERIF_PROP": prop})
     trees = os.path.join(wd, "trees.json")
     specs = json.load(open(os.path.join(wd, "specs.json")))
     return trees, specs, res
@@ -31,13 +31,11 @@ def leg_m_expect_violation(wd, cfg, trees, prop_names, timeout=600, tag=None):
 def leg_r(wd, binary, cfg, trees, specs, verdict, max_paths, max_len=40, test="TestReplay", extra_env=None, tag=None, only=None):
     r = vlib.run_tlc(wd, "MCChain", cfg, workers=1, timeout=1200, env={"TREES": trees}, tag=tag)
     vlib.tlc_must_pass(r, cfg)
-    edges = r.edges
-    if only:
-        edges = [e for e in edges if only(e)] if False else edges
     # one graph per tree (initial states differ): cover each separately
     by_tree = {}
-    for e in edges:
-        by_tree.setdefault(e["from"]["t"], []).append(e)
+    for raw in r.edges.raw:
+        tnum = int(re.search(r'"t":(\d+)', raw).group(1))
+        by_tree.setdefault(tnum, vlib.EdgeList()).append_raw(raw)
     rng = random.Random(vlib.seed())
     paths = []
     nst = ned = cov = 0
@@ -45,6 +43,9 @@ def leg_r(wd, binary, cfg, trees, specs, verdict, max_paths, max_len=40, test="T
         s, n = vlib.graph_stats(es)
         nst += s; ned += n
         ps = vlib.path_cover(es, max_paths=None, rng=rng, max_len=max_len)
+        if max_paths and len(ps) > max_paths:
+            rng.shuffle(ps)
+            ps = ps[:max(max_paths // 4, 50)]      # bound memory: parsed paths are big
         paths.extend(ps)
     full = len(paths)
     if max_paths and len(paths) > max_paths:
@@ -74,14 +75,38 @@ def probe(wd, cfg, trees, expect, tag=None):
     return hit, r
 
 
+# which harness findings belong to which property's statement (a ledger-set mismatch seen while
+# checking C04 is not a violation of C04: it is reported by the checks of C02/C03/C19)
+ACCEPT = {
+    "C01": r"^(replay:|trace:|driver:c01|audit:c01)",
+    "C02": r"^(replay:|trace:|driver:c02|audit:c02|audit:c01:tipstate)",
+    "C03": r"^(replay:|trace:|driver:c03|audit:c01|audit:c02:(utxo|contract|expiry-set|twin))",
+    "C04": r"^(replay:|trace:|driver:c04)",
+    "C19": r"^(replay:|trace:|driver:c19|audit:c01|audit:c02:(utxo|contract|expiry-set))",
+}
+# replay mismatches on the expiration ORDER are the C02 finding seen through the spec comparison
+NOT_FOR = {"C01": r"led-order", "C03": r"led-order", "C04": r"led-order", "C19": r"led-order"}
+
+
+class FilteredVerdict(vlib.Verdict):
+    def add(self, mm):
+        import re
+        sig = mm.get("sig", "")
+        if not re.search(ACCEPT[self.prop], sig):
+            return
+        if self.prop in NOT_FOR and re.search(NOT_FOR[self.prop], sig):
+            return
+        super().add(mm)
+
+
 def run_family(prop, tier, mc_cfg, edge_cfg, sizes, deep=False, probes=(), assumptions=(), quick_paths=4000, extra=None):
     import time as _t
     t0 = _t.time()
     wd = vlib.workdir(prop)
-    verdict = vlib.Verdict(prop)
+    verdict = FilteredVerdict(prop)
     binary = vlib.go_build("chainx", wd)
     per, blocks = sizes[tier]
-    trees, specs, gen = gen_trees(wd, binary, per, blocks)
+    trees, specs, gen = gen_trees(wd, binary, per, blocks, prop)
     m = leg_m(wd, mc_cfg, trees, timeout=1500)
     probe_res = {}
     for cfg, expect in probes:
